@@ -15,6 +15,7 @@ import (
 	"time"
 
 	"verif/internal/choice"
+	"verif/internal/detsched"
 	"verif/internal/shrink"
 	"verif/internal/sim"
 	"verif/internal/watchdog"
@@ -165,7 +166,9 @@ func execute(s sim.Scenario, c choice.Chooser, opt sim.Options) (res sim.Result,
 			res.Violation = &sim.Violation{Class: class, Msg: "data race reported by the race detector", Detail: first}
 		}
 	}
-	if watchdog.Leaked > leakedBefore {
+	if watchdog.Leaked > leakedBefore || detsched.Dirty {
+		// goroutines were left behind (a hung call, a deadlocked or leaking
+		// schedule): this process must not execute another run
 		mustExit = true
 	}
 	if res.Evals == 0 {
